@@ -88,6 +88,7 @@ type FuncContract struct {
 	Src      string
 	NoSafety bool
 	RetLets  map[int]map[string]*SExpr
+	Modifies []string // heap fields ("Type.field") that may change on pre-existing objects
 	Dead     []string // cover obligations expected to be unreachable under the precondition (suffix match)
 	Free     []string // parameters exempt from the exact-mode domain assumption (may hold +-Inf)
 }
@@ -103,7 +104,7 @@ var directiveKW = map[string]bool{
 	"spec": true, "lemma": true, "axiom": true, "func": true, "requires": true, "ensures": true,
 	"loop": true, "call": true, "assigns": true, "pure": true, "trusted": true, "arith": true,
 	"decreases": true, "induction": true, "use": true, "props": true, "ret": true, "entry": true,
-	"unfold": true, "iter": true, "ghost": true, "opaque": true, "nosafety": true, "have": true, "free": true, "dead": true,
+	"unfold": true, "iter": true, "ghost": true, "opaque": true, "nosafety": true, "have": true, "free": true, "dead": true, "modifies": true,
 }
 
 // collectAnnotations returns the //@ lines of a file, with positions.
@@ -311,6 +312,10 @@ func (cs *Contracts) parseFile(pkg string, lines []string, where string) {
 				panic(w + ": have only in lemmas")
 			}
 			curL.Haves = append(curL.Haves, parseClause(it.text, w))
+		case "modifies":
+			for _, a := range strings.FieldsFunc(it.text, func(r rune) bool { return r == ',' || r == ' ' }) {
+				curF.Modifies = append(curF.Modifies, a)
+			}
 		case "dead":
 			curF.Dead = append(curF.Dead, strings.Fields(it.text)...)
 		case "free":
